@@ -5,6 +5,8 @@ A program is plain JSON-able data (dicts / lists / tuples turned into lists):
     expr  ::= ["var", x] | ["lit", v] | ["glob", name] | ["un", op, e] | ["bin", op, a, b] | ["cmp", op, a, b]
             | ["call", opname, [arg|None...], [[kw, attr]...]]       op.<opname>(args, kw=attr)
             | ["fcall", fname, [arg...], [[kw, attr]...]]            call of another script function
+            | ["sub", base, [idx...]]                                base[idx, ...]   (subscript stream only)
+    idx   ::= ["i", int] | ["all"] | ["s", lo|None, hi|None, step|None]   lo/hi/step: ["lit", int] or an INT64 scalar expression
     attr  ::= ["v", python value] | ["ref", attribute-parameter name]
     stmt  ::= ["assign", x, e] | ["tassign", [x...], e] | ["if", e, [stmt...], [stmt...]]
             | ["for", i, e, [stmt...]] | ["while", c, [stmt...]] | ["break_if", c] | ["return", [e...]]
@@ -13,7 +15,8 @@ A program is plain JSON-able data (dicts / lists / tuples turned into lists):
                "rank": r, "deco": "default_opset" | "plain"}
 
 dt in F (float32) I (int64) B (bool); sc (shape class) in "S" (the program's common shape, rank `rank`),
-"0" (scalar), "V4", "V2" (vectors of that length).
+"0" (scalar), "V4", "V2" (vectors of that length), "T1".."T3" (subscript stream: a tensor of that rank whose extents are
+not tracked -- the result of a subscript; combined only with scalars, reduced, returned or subscripted again with slices).
 
 Printers: to_source (a Python module text), to_coq (a Script.Syntax literal).  `mutate` produces the
 near-miss stream (one grammar-violating edit of the source text).
@@ -40,6 +43,10 @@ def ann(dt, sc, rank):
         return base + "[4]"
     if sc == "V2":
         return base + "[2]"
+    if sc == "TX":
+        return base + "[...]"            # unknown rank (corpus only)
+    if sc.startswith("T"):
+        return base + "[" + ", ".join(["None"] * int(sc[1:])) + "]"
     dims = ["'D0'", "'D1'", "'D2'"][:rank]
     return base + "[" + ", ".join(dims) + "]"
 
@@ -47,7 +54,9 @@ def ann(dt, sc, rank):
 # ----------------------------------------------------------------------------- generator
 
 class Gen:
-    def __init__(self, rng, depth=2, rich=True, allow_float_mod=True, helper=None):
+    def __init__(self, rng, depth=2, rich=True, allow_float_mod=True, helper=None, subs=False):
+        self.subs = subs             # subscript stream: tensor subscripts occur as expressions
+        self.min_dims = [0, 0, 0]    # least extent of each axis of the common shape S (constant integer indices)
         self.rng = rng
         self.maxdepth = depth
         self.types = {}          # name -> (dt, sc)   (fixed per name for the whole program)
@@ -104,6 +113,8 @@ class Gen:
     # -- expressions.  want (dt, sc); `env` = set of definitely-defined names
     def expr(self, env, dt, sc, depth, top=False):
         rng = self.rng
+        if sc.startswith("T"):
+            return self.t_expr(env, dt, sc, depth)
         cands = self.vars_of(env, dt, sc)
         if depth <= 0:
             if cands:
@@ -145,6 +156,11 @@ class Gen:
                 return self.convert(["var", n], self.types[n][0], dt)
             # expand a scalar to S is not possible without a shape: use a scalar (S-shaped programs always have an S param)
             raise RuntimeError("no S-shaped value")
+        if sc.startswith("T"):
+            e = self.sub_expr(env, dt, int(sc[1:]), 1)
+            if e is None:
+                raise RuntimeError("no subscriptable value")
+            return e
         if sc in ("V4", "V2"):
             k = 4 if sc == "V4" else 2
             s = self.leaf(env, dt if dt != "B" else "F", "0")
@@ -179,6 +195,12 @@ class Gen:
         """An operand next to a tensor operand of type (dt, sc'): may be a literal, a literal variable,
         an attribute parameter, a global constant, a loop variable or a scalar broadcast."""
         rng = self.rng
+        if sc.startswith("T"):
+            # the extents of a subscript result are not tracked: only scalars / literals are combined with it
+            if rng.random() < 0.5:
+                self.features.add("literal-operand")
+                return ["lit", self.lit(dt)]
+            return self.expr(env, dt, "0", max(depth - 1, 0))
         r = rng.random()
         if allow_lit and r < 0.30:
             self.features.add("literal-operand")
@@ -211,7 +233,16 @@ class Gen:
             choices += ["castfrom"]
         if self.helper is not None and depth >= 1:
             choices += ["fcall"]
+        if self.subs and dt in ("F", "I"):
+            if sc == "0":
+                choices += ["subred"] * 5
+            elif sc == "S" and self.rank >= 1:
+                choices += ["subfull"] * 2
         kind = rng.choice(choices)
+        if kind == "subred":
+            return self.subred(env, dt, depth)
+        if kind == "subfull":
+            return self.subfull(env, dt, depth)
         if kind == "bin":
             ops = ["+", "-", "*", "+", "-"]
             if dt == "F":
@@ -326,6 +357,204 @@ class Gen:
             return self.leaf(env, dt, sc)
         raise AssertionError(kind)
 
+
+    # -- subscripts (subscript stream).  Index forms that property C11 records as known defects are not generated:
+    #    no tensor (rank >= 1) indices at all, a negative-step slice never has a negative or run-time start, a negative
+    #    integer index only when it is the only index that is not a bare `:`.
+    SUB_LITS = [0, 0, 1, 2, 3, -1, -2, 5, -5]
+
+    def dyn_bound(self, env):
+        """An INT64 scalar expression for a slice bound (a tensor in the graph; a tensor or a Python int eagerly), or None."""
+        rng = self.rng
+        c = [(n, "tensor") for n in self.vars_of(env, "I", "0")]
+        c += [(n, "loopvar") for n in sorted(env) if self.flags.get(n) == "loopvar"]
+        if rng.random() < 0.25:
+            c += [(n, "attr") for n in sorted(env) if self.flags.get(n) == "attr" and self.types[n][0] == "I"
+                  and self.attr_role(n) == "value"]
+            c += [(n, "glob") for n in sorted(env) if self.flags.get(n) == "glob" and self.types[n][0] == "I"]
+        if not c:
+            return None
+        n, kind = rng.choice(c)
+        self.features.add("sub-bound-" + kind)
+        v = ["glob", n] if kind == "glob" else ["var", n]
+        r = rng.random()
+        if r < 0.6:
+            return v
+        return ["bin", "+" if r < 0.8 else "-", v, ["lit", 1]]
+
+    def attr_role(self, name):
+        for a_ in self.attrs:
+            if a_[0] == name:
+                return a_[3]
+        return None
+
+    def slice_bound(self, env, allow_dyn=True):
+        rng = self.rng
+        r = rng.random()
+        if r < 0.3:
+            return None
+        if r < 0.72 or not allow_dyn:
+            return ["lit", rng.choice(self.SUB_LITS)]
+        d = self.dyn_bound(env)
+        return d if d is not None else ["lit", rng.choice(self.SUB_LITS)]
+
+    def slice_idx(self, env):
+        rng = self.rng
+        step = rng.choice([None] * 6 + [1, 2, 2, -1, -1, -2])
+        if step is None or step > 0:
+            lo, hi = self.slice_bound(env), self.slice_bound(env)
+        else:
+            lo = rng.choice([None, None, 0, 1, 2, 3, 5])
+            lo = None if lo is None else ["lit", lo]
+            hi = self.slice_bound(env)
+            self.features.add("sub-negative-step")
+        if lo is None and hi is None and step is None:
+            return ["all"]
+        return ["s", lo, hi, None if step is None else ["lit", step]]
+
+    def sub_expr(self, env, dt, want_rank, depth):
+        """base[idx, ...] of element type dt and rank want_rank (0 = every axis indexed by an integer), or None."""
+        rng = self.rng
+        cands = []
+        for n in sorted(env):
+            if self.flags.get(n, "plain") != "plain":
+                continue
+            ndt, nsc = self.types[n]
+            if ndt == "B":
+                continue
+            if nsc == "S" and self.rank >= 1:
+                cands.append((n, self.rank, [None] * self.rank))
+            elif nsc in ("V4", "V2"):
+                cands.append((n, 1, [4 if nsc == "V4" else 2]))
+            elif nsc.startswith("T"):
+                cands.append((n, int(nsc[1:]), None))
+        ok = [c for c in cands if (c[1] >= want_rank if c[2] is not None else c[1] == want_rank)]
+        if not ok:
+            return None
+        same = [c for c in ok if self.types[c[0]][0] == dt]
+        n, R, dims = rng.choice(same) if same and rng.random() < 0.85 else rng.choice(ok)
+        base = self.convert(["var", n], self.types[n][0], dt)
+        if base[0] == "var" and self.types[n][1] == "S" and depth >= 2 and rng.random() < 0.12:
+            base = ["bin", rng.choice(["+", "*"]), base, ["lit", self.lit(dt)]]     # (x + 1.0)[...]
+            self.features.add("sub-of-expression")
+        n_int = R - want_rank
+        int_axes = sorted(rng.sample(range(R), n_int))
+        L = max(int_axes[-1] + 1 if int_axes else 1, rng.randrange(1, R + 1))
+        neg_alone = n_int == 1 and rng.random() < 0.25
+        idxs = []
+        for ax in range(L):
+            if ax in int_axes:
+                known = dims[ax]
+                if neg_alone:
+                    k = -rng.choice([1, 2] if known is None or known >= 2 else [1])
+                    need = -k
+                else:
+                    k = rng.randrange(0, min(3, known) if known is not None else 3)
+                    need = k + 1
+                if dims[ax] is None:
+                    self.min_dims[ax] = max(self.min_dims[ax], need)
+                idxs.append(["i", k])
+            elif neg_alone:
+                idxs.append(["all"])
+            else:
+                idxs.append(self.slice_idx(env) if rng.random() < 0.8 else ["all"])
+        if all(i[0] == "all" for i in idxs) and rng.random() < 0.85:
+            i0 = self.slice_idx(env)
+            idxs[rng.randrange(len(idxs))] = i0 if i0[0] != "all" else ["s", None, ["lit", rng.choice(self.SUB_LITS)], None]
+        self.features.add("subscript")
+        if n_int:
+            self.features.add("sub-int-index" + ("-negative" if neg_alone else ""))
+        if len(idxs) > 1:
+            self.features.add("sub-multi-axis")
+        return ["sub", base, idxs]
+
+    def t_expr(self, env, dt, sc, depth):
+        """An expression of the untracked-extent class sc = "T<rank>"."""
+        rng = self.rng
+        r = int(sc[1:])
+        cands = self.vars_of(env, dt, sc)
+        roll = rng.random()
+        if cands and (depth <= 0 or roll < 0.2):
+            return ["var", self.pick_recent(cands, env)]
+        if not cands or roll < 0.6 or depth <= 0:
+            e = self.sub_expr(env, dt, r, depth)
+            if e is not None:
+                return e
+            raise RuntimeError("no subscriptable value")
+        a = ["var", self.pick_recent(cands, env)] if rng.random() < 0.7 else self.t_expr(env, dt, sc, depth - 1)
+        kind = rng.choice(["bin", "bin", "unary", "callbin"])
+        if kind == "unary":
+            if rng.random() < 0.4:
+                return ["un", "-", a]
+            return ["call", rng.choice(["Neg", "Abs", "Identity"] + (["Relu"] if dt == "F" else [])), [a], []]
+        b = self.operand(env, dt, sc, depth)
+        if kind == "bin":
+            e = ["bin", rng.choice(["+", "-", "*"]), a, b]
+            if rng.random() < 0.25:
+                e[2], e[3] = e[3], e[2]
+            return e
+        return ["call", rng.choice(["Add", "Sub", "Mul", "Max", "Min"]), [a, b], []]
+
+    def subred(self, env, dt, depth):
+        """A scalar computed from a subscript: the element itself, the sum or the element count of a slice."""
+        rng = self.rng
+        roll = rng.random()
+        if roll < 0.2:
+            e = self.sub_expr(env, dt, 0, depth)
+            if e is not None:
+                self.features.add("sub-all-int")
+                return e
+        r = rng.randrange(1, self.rank + 1)
+        tv = self.vars_of(env, dt, "T%d" % r)
+        inner = ["var", self.pick_recent(tv, env)] if tv and rng.random() < 0.4 else self.sub_expr(env, dt, r, depth)
+        if inner is None:
+            return self.leaf(env, dt, "0")
+        if roll < 0.45:
+            e = ["call", "Size", [inner], []]
+            return e if dt == "I" else ["call", "Cast", [e], [["to", ["v", FLOAT]]]]
+        return ["call", "ReduceSum", [inner], [["keepdims", ["v", 0]]]]
+
+    def subfull(self, env, dt, depth):
+        """A subscript that keeps the whole common shape: x[:], x[0:], x[:9], x[-9::1], ... (extents are <= 4)."""
+        rng = self.rng
+        c = [n for n in self.vars_of(env, dt, "S")]
+        if not c:
+            return self.leaf(env, dt, "S")
+        full = [["all"], ["s", ["lit", 0], None, None], ["s", None, ["lit", 9], None], ["s", ["lit", -9], None, ["lit", 1]],
+                ["s", None, None, ["lit", 1]], ["s", ["lit", -9], ["lit", 9], None]]
+        L = rng.randrange(1, self.rank + 1)
+        idxs = [copy.deepcopy(rng.choice(full)) for _ in range(L)]
+        self.features.add("subscript")
+        self.features.add("sub-full-extent")
+        return ["sub", ["var", self.pick_recent(c, env)], idxs]
+
+    def sub_stmt(self, env):
+        """An assignment whose right-hand side is built around a subscript."""
+        rng = self.rng
+        dt = rng.choice(["F", "F", "I"])
+        roll = rng.random()
+        if roll < 0.7:
+            r = rng.randrange(1, self.rank + 1)
+            sc = "T%d" % r
+            existing = [n for n in self.vars_of(env, dt, sc) if n not in self.frozen]
+            if existing and rng.random() < 0.4:
+                v = self.pick_recent(existing, env)
+                e = self.t_expr(env, dt, sc, 2)
+            else:
+                e = self.sub_expr(env, dt, r, 2)
+                if e is None:
+                    return self.assign_stmt(env)
+                v = self.new_name(dt, sc, hint=rng.choice(["w", "h", "sl", "part", "row"]) if rng.random() < 0.6 else None)
+        else:
+            e = self.subred(env, dt, 2)
+            existing = [n for n in self.vars_of(env, dt, "0") if n not in self.frozen and n not in self.bounded and not n.startswith("_p_")]
+            if existing and rng.random() < 0.5:
+                v = self.pick_recent(existing, env)
+            else:
+                v = self.new_name(dt, "0")
+        self.touch(env, v)
+        return [["assign", v, e]]
+
     def is_py(self, e):
         """Is this operand a plain Python value in eager mode (literal, literal variable, attribute, loop variable)?"""
         if e[0] in ("lit", "glob"):
@@ -406,7 +635,9 @@ class Gen:
         env = dict(env)
         for k in range(n):
             roll = rng.random()
-            if depth > 0 and roll < 0.18:
+            if self.subs and rng.random() < 0.38:
+                s = self.sub_stmt(env)
+            elif depth > 0 and roll < 0.18:
                 s = self.if_stmt(env, depth)
             elif depth > 0 and roll < 0.30:
                 s = self.for_stmt(env, depth)
@@ -693,8 +924,10 @@ class Gen:
         pnames = ["x", "y", "n", "m", "v", "p"]
         first = self.new_name("F", "S", hint="x")
         tparams.append([first, "F", "S"])
-        for _ in range(nt - 1):
+        for j_ in range(nt - 1):
             kind = rng.choice(["FS", "IS", "I0", "F0", "B0", "FV4", "I0"])
+            if self.subs and j_ == 0 and rng.random() < 0.7:
+                kind = "I0"          # an INT64 scalar input to slice with
             if is_helper and kind == "FV4":
                 kind = "FS"
             dt, sc = kind[0], kind[1:]
@@ -724,6 +957,12 @@ class Gen:
             self.touch(env, nm)
         # python requires non-default parameters first: order attrs without default first
         self.attrs.sort(key=lambda a_: a_[2] is not None)
+        if self.subs and rng.random() < 0.3:
+            g = "LO"
+            self.globals[g] = rng.choice([0, 1, 2])
+            self.types[g] = ("I", "0")
+            self.flags[g] = "glob"
+            self.touch(env, g)
         if not is_helper and rng.random() < 0.25:
             g = "K2"
             self.globals[g] = rng.choice([2.0, 0.5, 3])
@@ -762,6 +1001,9 @@ class Gen:
                 "body": body, "rets": rtypes, "subs": [self.helper] if self.helper else [], "globals": dict(self.globals),
                 "rank": self.rank, "deco": "plain" if (rng.random() < 0.2 and uses_op(body)) else "default_opset",
                 "bounded": sorted(self.bounded), "features": sorted(self.features)}
+        if self.subs:
+            prog["stream"] = "subscript"
+            prog["min_dims"] = list(self.min_dims[:self.rank])
         return prog
 
 
@@ -780,6 +1022,12 @@ def uses_op(body):
         if e[0] in ("call", "fcall"):
             for a in e[2]:
                 ve(a)
+        if e[0] == "sub":
+            ve(e[1])
+            for i in e[2]:
+                if i[0] == "s":
+                    for c in i[1:4]:
+                        ve(c)
 
     def vs(s):
         if s[0] == "assign":
@@ -810,6 +1058,66 @@ def gen_program(rng, idx=0, depth=2, straight=False):
         g.rank = helper["rank"]
     p = g.program(name=f"f{idx}")
     return p
+
+
+def has_subscript(p):
+    return p.get("stream") == "subscript"
+
+
+def gen_subscript_program(rng, idx=0, depth=2):
+    """One random program of the subscript stream: the same typed grammar, with tensor subscripts as expressions at
+    every nesting position (top level, then/else branches, loop bodies, after the control-flow statement)."""
+    for _ in range(20):
+        g = Gen(rng, depth=depth, subs=True)
+        g.rank = rng.choice([1, 2, 2, 3])
+        p = g.program(name=f"g{idx}", n_stmts=rng.choice([2, 3, 3, 4, 5]))
+        if "subscript" in p["features"]:
+            break
+    if rng.random() < 0.35:
+        add_decoy_globals(p, rng)
+    return p
+
+
+def assigned_names(p):
+    """Python names the body assigns (loop variables included)."""
+    out = []
+
+    def vs(stmts):
+        for s in stmts:
+            if s[0] == "assign":
+                out.append(s[1])
+            elif s[0] == "tassign":
+                out.extend(s[1])
+            elif s[0] == "if":
+                vs(s[2]); vs(s[3])
+            elif s[0] == "for":
+                out.append(s[1]); vs(s[3])
+            elif s[0] == "while":
+                vs(s[2])
+    vs(p["body"])
+    return sorted(set(out))
+
+
+def all_names(p):
+    return set(assigned_names(p)) | {t[0] for t in p["tparams"]} | {a[0] for a in p["aparams"]} | set(p["globals"]) \
+        | {h["name"] for h in p["subs"]} | {p["name"]} | set(MODULE_NAMES)
+
+
+def add_decoy_globals(p, rng):
+    """Module-level names that coincide with a local variable or a parameter of the function.  In Python a name that is
+    a parameter or is assigned anywhere in the function is local to it: the module-level object is never read."""
+    locs = [n for n in assigned_names(p) if n not in p["globals"]]
+    params = [t[0] for t in p["tparams"]] + [a[0] for a in p["aparams"]]
+    picks = []
+    if locs:
+        picks += rng.sample(locs, min(len(locs), rng.choice([1, 1, 2])))
+    if params and rng.random() < 0.6:
+        picks.append(rng.choice(params))
+    for n in picks:
+        p["globals"][n] = rng.choice([2.0, 3, True, False, 0.5, 0])
+    if picks:
+        p["features"] = sorted(set(p["features"]) | {"decoy-global"})
+        p["decoys"] = sorted(picks)
 
 
 # ----------------------------------------------------------------------------- python source printer
@@ -854,7 +1162,21 @@ def src_expr(e, ctx=0):
             parts.append(f"{kw}={av[1] if av[0] == 'ref' else pylit(av[1])}")
         head = ("op." + e[1]) if k == "call" else e[1]
         return head + "(" + ", ".join(parts) + ")"
+    if k == "sub":
+        base = src_expr(e[1], 9)
+        if e[1][0] not in ("var", "glob", "call", "fcall", "sub") and not base.startswith("("):
+            base = "(" + base + ")"
+        return base + "[" + ", ".join(src_index(i) for i in e[2]) + "]"
     raise TypeError(e)
+
+
+def src_index(i):
+    if i[0] == "i":
+        return repr(int(i[1]))
+    if i[0] == "all":
+        return ":"
+    comp = ["" if c is None else strip_parens(src_expr(c)) for c in i[1:4]]
+    return comp[0] + ":" + comp[1] + ("" if i[3] is None else ":" + comp[2])
 
 
 def strip_parens(s):
@@ -955,7 +1277,7 @@ def shape_key(p):
             else:
                 out.append("a")
         return "".join(out)
-    return ks(p["body"], 0) + "/p%d/a%d/s%d" % (len(p["tparams"]), len(p["aparams"]), len(p["subs"]))
+    return ks(p["body"], 0) + "/p%d/a%d/s%d" % (len(p["tparams"]), len(p["aparams"]), len(p["subs"])) + ("/sub" if has_subscript(p) else "")
 
 
 # ----------------------------------------------------------------------------- near misses (one grammar-violating edit)
@@ -1054,6 +1376,100 @@ def mutate(p, kind, rng):
         raise KeyError(kind)
     q["body"] = core + [ret]
     return to_source(q)
+
+
+# ----------------------------------------------------------------------------- near misses aimed at name resolution
+#
+# A variable assigned on only one path and used afterwards, whose name also denotes something else the converter can
+# resolve: a module-level global, a closure variable, a module-level script function, a name the converter generates.
+# In Python a name assigned anywhere in a function is local to it, so on the other path the variable is unbound
+# (UnboundLocalError): the program is outside the subset whatever the enclosing module contains, and must be refused.
+
+NAME_WHERE = ["if-then-only", "if-else-only", "if-no-else", "nested-if", "for-body-only", "while-body-only"]
+NAME_CLASH = ["none", "module-global-float", "module-global-int", "module-global-array", "closure", "sub-function",
+              "generated-name"]
+GENERATED_NAMES = ["cond", "cond_in", "cond_out", "tmp", "return_val", "loop_bound", "const", "{x}_1", "{x}_0", "tmp_0"]
+
+
+def name_near_miss(p, where, clash, rng):
+    """Source text of program p with a one-path assignment of a variable whose name clashes as `clash`.
+    Returns (source, variable name)."""
+    q = copy.deepcopy(p)
+    body = q["body"]
+    ret = body[-1]
+    core = body[:-1]
+    x = q["tparams"][0][0]
+    taken = all_names(q)
+
+    def fresh(cands):
+        for c in cands:
+            if c not in taken:
+                return c
+        k = 0
+        while f"{cands[0]}_{k}" in taken:
+            k += 1
+        return f"{cands[0]}_{k}"
+    pre_lines, post = [], None
+    if clash == "none":
+        v = fresh(["_nm_v"])
+    elif clash == "module-global-float":
+        v = fresh(["scale", "gain", "factor"])
+        pre_lines = [f"{v} = {rng.choice(['2.0', '0.5', '-1.0'])}"]
+    elif clash == "module-global-int":
+        v = fresh(["limit", "count", "width"])
+        pre_lines = [f"{v} = {rng.choice(['6', '0', '1'])}"]
+    elif clash == "module-global-array":
+        v = fresh(["bias", "offset", "weights"])
+        pre_lines = ["import numpy as np", f"{v} = np.array([0.5], dtype=np.float32)"]
+    elif clash == "closure":
+        v = fresh(["scale", "gain", "factor"])
+    elif clash == "sub-function":
+        v = fresh(["shadowed_fn", "other_fn"])
+        pre_lines = ["@script(default_opset=op)", f"def {v}(a: FLOAT[...]) -> FLOAT[...]:", "    return op.Neg(a)"]
+    elif clash == "generated-name":
+        cands = [g.format(x=x) for g in GENERATED_NAMES]
+        rng.shuffle(cands)
+        v = fresh(cands)
+    else:
+        raise KeyError(clash)
+    test = f"op.ReduceSum({x}, keepdims=0) > 0.0"
+    asg = f"{v} = {x} + 1.0"
+    other = f"_nm_o = -{x}"
+    if where == "if-then-only":
+        lines = [f"if {test}:", "    " + asg, "else:", "    " + other]
+    elif where == "if-else-only":
+        lines = [f"if {test}:", "    " + other, "else:", "    " + asg]
+    elif where == "if-no-else":
+        lines = [f"if {test}:", "    " + asg]
+    elif where == "nested-if":
+        lines = [f"_nm_y = {x} * 1.0", f"if {test}:", f"    if op.ReduceSum({x}, keepdims=0) > 10.0:", "        " + asg,
+                 "    else:", f"        _nm_y = -{x}", "else:", "    " + asg]
+    elif where == "for-body-only":
+        lines = [f"for _nm_i in range(op.Size({x})):", "    " + asg]
+    elif where == "while-body-only":
+        lines = [f"_nm_g = {test}", "while _nm_g:", "    " + asg, f"    _nm_g = op.ReduceSum({v}, keepdims=0) < 0.0"]
+    else:
+        raise KeyError(where)
+    core.insert(rng.randrange(len(core) + 1), ["raw", lines])
+    ret[1][0] = ["bin", "*", ["var", v], ["var", x]]
+    q["body"] = core + [ret]
+    if clash == "closure":
+        txt = HEADER
+        for g, val in sorted(q["globals"].items()):
+            txt += f"{g} = {pylit(val)}\n"
+        txt += "\n"
+        for h in q["subs"]:
+            txt += src_function(h) + "\n\n"
+        txt += "def _nm_make():\n    " + v + " = 2.0\n"
+        txt += "".join("    " + ln + "\n" for ln in src_function(q).rstrip("\n").split("\n"))
+        txt += f"    return {q['name']}\n\n{q['name']} = _nm_make()\n"
+        return txt, v
+    txt = to_source(q)
+    if pre_lines:
+        marker = "\n@script"
+        k = txt.index(marker)
+        txt = txt[:k] + "\n" + "\n".join(pre_lines) + "\n" + txt[k:]
+    return txt, v
 
 
 # ----------------------------------------------------------------------------- Coq printer (OV.Script.Syntax literals)
@@ -1174,6 +1590,16 @@ def load_corpus():
     import json
     import os
     path = os.path.join(os.path.dirname(os.path.dirname(os.path.abspath(__file__))), "corpus", "C01", "corpus.json")
+    if not os.path.exists(path):
+        return []
+    return json.load(open(path))
+
+
+def load_subscript_corpus():
+    """Named shapes of the subscript stream (corpus/C01/subscript.json): slices in sibling scopes, zero upper bounds."""
+    import json
+    import os
+    path = os.path.join(os.path.dirname(os.path.dirname(os.path.abspath(__file__))), "corpus", "C01", "subscript.json")
     if not os.path.exists(path):
         return []
     return json.load(open(path))
